@@ -199,6 +199,26 @@ func (m *MonC03) OnEvent(w *World, rec *StepRec) []*Violation {
 	if v := checkLogShape(w.Nodes[i].ID, li); v != nil {
 		return []*Violation{v}
 	}
+	// every append on the wire is a contiguous slice of the sender's log at the moment it was produced
+	if !w.Dead {
+		for _, msg := range newMsgs(rec, w.Nodes[i].vs()) {
+			if msg.GetType() != pb.MsgApp {
+				continue
+			}
+			if t, ok := li.Term(msg.GetIndex()); ok && t != msg.GetLogTerm() {
+				return []*Violation{{"C03", "append-is-slice-of-log", fmt.Sprintf("node %d produced MsgApp anchored at (%d, t%d) but its log has term %d there", w.Nodes[i].ID, msg.GetIndex(), msg.GetLogTerm(), t)}}
+			}
+			for k, e := range msg.GetEntries() {
+				want := msg.GetIndex() + 1 + uint64(k)
+				if e.GetIndex() != want {
+					return []*Violation{{"C03", "append-is-slice-of-log", fmt.Sprintf("node %d produced MsgApp anchored at %d whose entry #%d has index %d (expected %d)", w.Nodes[i].ID, msg.GetIndex(), k, e.GetIndex(), want)}}
+				}
+				if le := li.Entry(want); le != nil && !entEqual(le, e) {
+					return []*Violation{{"C03", "append-is-slice-of-log", fmt.Sprintf("node %d produced MsgApp carrying %s where its log holds %s", w.Nodes[i].ID, entStr(e), entStr(le))}}
+				}
+			}
+		}
+	}
 	for j := range w.Nodes {
 		if j == i {
 			continue
